@@ -512,6 +512,28 @@ __LUA_DICT_META.__tostring = function(a)
     return out
 end
 
+-- Dicts and sets keep their entries under __KEY(key): a text that is different for
+-- different keys. (tostring is not: tuples do not delimit their components and
+-- floats are printed with 14 digits.) The entry itself still holds the original key.
+function __KEY(k)
+    local t = type(k)
+    if t == "string" then
+        return "s" .. #k .. ":" .. k
+    elseif t == "number" then
+        if math.type ~= nil and math.type(k) == "integer" then
+            return "i" .. string.format("%d", k) .. ";"
+        end
+        return "n" .. string.format("%.17g", k) .. ";"
+    elseif t == "table" and getmetatable(k) == __TUPLE_META then
+        local out = "("
+        for x = 1, #k, 1 do
+            out = out .. __KEY(k[x])
+        end
+        return out .. ")"
+    end
+    return "o" .. tostring(k)
+end
+
 function dict_new()
     return setmetatable({}, __LUA_DICT_META)
 end
@@ -525,15 +547,15 @@ function dict_from_list(l)
 end
 
 function dict_update(dict, k, v)
-    dict[tostring(k)] = __TUPLE {k, v}
+    dict[__KEY(k)] = __TUPLE {k, v}
 end
 
 function dict_remove(dict, k)
-    dict[tostring(k)] = nil
+    dict[__KEY(k)] = nil
 end
 
 function dict_get(dict, k)
-    local x = dict[tostring(k)]
+    local x = dict[__KEY(k)]
     if x == nil then
        return __VARIANT({"None", __NIL})
     else
@@ -599,15 +621,15 @@ function set_from_list(l)
 end
 
 function set_add(set, k)
-    set[tostring(k)] = k
+    set[__KEY(k)] = k
 end
 
 function set_remove(set, k)
-    set[tostring(k)] = nil
+    set[__KEY(k)] = nil
 end
 
 function set_contains(set, k)
-    return set[tostring(k)] ~= nil
+    return set[__KEY(k)] ~= nil
 end
 
 function set_for_each(set, f)
